@@ -1,11 +1,12 @@
 """C15 — all interfaces agree on the content of the same objects."""
-from engine.h4v import H, libhdf_units
+import os
+from engine.h4v import H, libhdf_units, libmfhdf_units
 
 META = dict(
-    bounds=["S1: ordered interface pairs inside hdf/src on a 3x2 image: DFR8(+palette)->GR, GR->DFR8, DF24(il 0..2)->GR(il 0..2), GR(il)->DF24(reqil), DFAN->AN and AN->DFAN (second object with another ref, or with the SAME ref and another tag); GR->DFR8 / GR->DF24 are not registered (see plan()); "
+    bounds=["S1: ordered interface pairs inside hdf/src on a 3x2 image: DFR8(+palette)->GR, GR->DFR8, DF24(il 0..2)->GR(il 0..2), GR(il)->DF24(reqil), DFSD -> SD (S2: 2x3 dataset, unsigned and little-endian types), DFAN->AN and AN->DFAN (second object with another ref, or with the SAME ref and another tag); GR->DFR8 / GR->DF24 are not registered (see plan()); "
             "all pixel/palette/description bytes symbolic"],
     stubs=["stdio = models/memio.c", "error stack = codes only", "malloc never fails", "sprintf model (E9)"],
-    outside=["SD <-> DFSD <-> netCDF-style pairs (mfhdf whole stack)", "JPEG/IMCOMP", "the checked-in legacy files (fully concrete: nothing for a solver to decide)"],
+    outside=["SD -> DFSD and netCDF-style pairs (mfhdf whole stack)", "JPEG/IMCOMP", "the checked-in legacy files (fully concrete: nothing for a solver to decide)"],
     manifest=dict(
         level="Bounded model checking (CBMC/SAT) of the whole real libhdf on memio: for each ordered pair (write interface, read interface) over 8-bit rasters with palette, "
               "24-bit rasters in the three interlaces, and object annotations, the solver decides for ALL pixel/palette/text bytes that dimensions, types, component order "
@@ -26,4 +27,10 @@ def plan(ctx, tier, seed):
         hs.append(H("C15.S1.m%d.il%d.r%d" % (mode, il, ril), "C15", src="harness/C15/s1_cross.c", units=libhdf_units(), models=["memio", "herr", "memloops", "printf"],
                     defs={"MODE": mode, "IL": il, "RIL": ril, "MEMIO_DISK_SZ": 8192}, unwind=5000, kind="S", timeout=1500, symbolic="pixels, palette, description text",
                     bound="3x2 image", group="C15.S1.m%d" % mode, hang_is_violation=True))
+    if True:  # DFSD -> SD: a dataset written by the single-file interface read through the mfhdf import path (hdfsds.c)
+        lower = ["mfhdf/src/putget.c", "mfhdf/src/var.c", "mfhdf/src/array.c", "mfhdf/src/putgetg.c", "mfhdf/src/mfsd.c", "mfhdf/src/cdf.c", "mfhdf/src/attr.c", "mfhdf/src/dim.c"]
+        for tn, code, es in (("u16", "DFNT_UINT16", 2), ("li16", "(DFNT_LITEND|DFNT_INT16)", 2)) + ((("u8", "DFNT_UINT8", 1), ("f32", "DFNT_FLOAT32", 4)) if tier != "quick" else ()):
+            hs.append(H("C15.S2.dfsd2sd." + tn, "C15", src="harness/C15/s2_dfsd_sd.c", units=libhdf_units() + libmfhdf_units(), models=["memio", "herr", "memloops", "printf"],
+                        defs={"NT": code, "ES": es, "MEMIO_DISK_SZ": 4096}, unwind=5000, kind="S", timeout=2400, mf=True, lower=lower, symbolic="all element bytes",
+                        bound="2x3 dataset", group="C15.S2", hang_is_violation=True))
     return hs
